@@ -216,6 +216,7 @@ type construct struct {
 	msg      string // exact message when the script supplies it
 	nonErr   bool   // a thrown value that is not an Error instance: Go side is a plain error with the value's ToString
 	group    string // input class used by signatures
+	nested   bool   // two error constructs in one expression (family nested)
 	noTrace  bool   // trace not asserted (error object created elsewhere)
 	argCalls []int  // offsets in text of calls evaluated in the construct's own argument list (recorded before the anchor)
 }
@@ -313,6 +314,7 @@ func buildConstructs() []construct {
 		text: "throw em", class: "TypeError", name: "Custom", msg: "m", group: "throw-modified", noTrace: true})
 	add(construct{id: "throw-subclass", setup: segs(s(`function MyErr(m){ this.message = m; } MyErr.prototype = `), cn(`new Error()`), s(`; MyErr.prototype.name = "MyErr";`)),
 		text: `throw new MyErr("m")`, anchor: 10, nonErr: true, group: "throw-value"})
+	l = append(l, nestedConstructs()...)
 	return l
 }
 
